@@ -508,6 +508,7 @@ func ruleOp2Table(p *Prog, r *Result) {
 		return
 	}
 	n := 0
+	twoCovered := map[string]bool{}
 	allInstrs(fn, func(in ssa.Instruction) {
 		al, ok := in.(*ssa.Alloc)
 		if !ok || typeName(al.Type()) != "Token" {
@@ -565,6 +566,9 @@ func ruleOp2Table(p *Prog, r *Result) {
 						posOK = true
 					}
 				}
+				if prevOK && eqOK {
+					twoCovered[s] = true
+				}
 				r.add(prevOK && eqOK, key+"|chars", p.InstrPos(al), fmt.Sprintf("emitted only when the previous character is %q and the current one is %q", s[0], s[1]))
 				r.add(posOK, key+"|pos", p.InstrPos(al), "a two-character operator starts one byte before the current index")
 			} else {
@@ -585,9 +589,61 @@ func ruleOp2Table(p *Prog, r *Result) {
 		if cv, ok := dataV.(*ssa.Convert); ok && cv.X == char {
 			key := fmt.Sprintf("tok|string(char)#%d", n)
 			r.add(posV == idx, key, p.InstrPos(al), "a single-character token carries the current character and the current index")
+			return
 		}
+		// Data = string(prev) + "=": the two-character operators built by one shared arm
+		if bo, ok := dataV.(*ssa.BinOp); ok && bo.Op == token.ADD {
+			if cv, ok := bo.X.(*ssa.Convert); ok {
+				if _, isPhi := cv.X.(*ssa.Phi); isPhi {
+					if tail, isC := constString(bo.Y); isC && len(tail) == 1 {
+						key := fmt.Sprintf("tok|string(prev)+%q#%d", tail, n)
+						eqOK := false
+						for _, a := range atoms {
+							if a.Op == token.EQL && a.X == char {
+								if c, ok := constInt(a.Y); ok && c == int64(tail[0]) {
+									eqOK = true
+								}
+							}
+						}
+						// the previous characters under which this arm is reached
+						chars, closed := prevCharsInto(al.Block(), cv.X)
+						spell := true
+						for _, c := range chars {
+							sp := string(rune(c)) + tail
+							if _, isOp := s2o[sp]; !isOp {
+								spell = false
+							}
+							twoCovered[sp] = true
+						}
+						posOK := false
+						if b2, ok := posV.(*ssa.BinOp); ok && b2.Op == token.SUB && b2.X == idx {
+							if c, ok := constInt(b2.Y); ok && c == 1 {
+								posOK = true
+							}
+						}
+						r.add(eqOK && closed && spell && len(chars) > 0, key+"|chars", p.InstrPos(al), fmt.Sprintf("emitted only when the current character is %q and the previous one is one of %q, each giving an operator spelling", tail, chars))
+						r.add(posOK, key+"|pos", p.InstrPos(al), "a two-character operator starts one byte before the current index")
+						return
+					}
+				}
+			}
+		}
+		// anything else must be text cut out of the query (words, numbers, quoted literals: WORDRESET)
+		if dataV != nil && p.derivesFromField(dataV, "Lexer", "Query", traceOpts{}) {
+			return
+		}
+		r.hit(fmt.Sprintf("tok|unclassified#%d", n), p.InstrPos(al), "a token literal in the scanner is neither a constant operator, string(char), string(prev)+c, nor text cut out of the query")
 	})
 	r.floor("token literals in Lexer.Split", n, 10)
+	// every two-character operator spelling of the operator table is produced by some arm
+	var missing []string
+	for sp := range s2o {
+		if len(sp) == 2 && !(sp[0] >= 'a' && sp[0] <= 'z') && !twoCovered[sp] {
+			missing = append(missing, sp)
+		}
+	}
+	sort.Strings(missing)
+	r.add(len(missing) == 0, "tok|two-char-coverage", p.Pos(fn.Pos()), fmt.Sprintf("every two-character operator of the operator table is emitted as one token by some arm (missing: %v)", missing))
 	// prev := char at the end of every iteration
 	var prev *ssa.Phi
 	for _, in := range L.Header.Instrs {
@@ -613,7 +669,7 @@ func ruleOp2Table(p *Prog, r *Result) {
 		r.add(okAll, "prev", p.InstrPos(prev), "on every way back to the loop header the previous-character variable is the character just scanned (no iteration skips the update)")
 	}
 	// the lexer scans the caller's text unchanged
-	for _, nm := range []string{"NewLexer", "NewParser"} {
+	for _, nm := range []string{"NewLexer", "NewParser", "NewOptimizer"} {
 		f := p.Func(nm)
 		if f == nil {
 			r.undecided("anchor: %s not found", nm)
@@ -637,6 +693,38 @@ func ruleOp2Table(p *Prog, r *Result) {
 			}
 		})
 		r.add(okv, "query|NewParser->NewLexer", p.Pos(np.Pos()), "the parser lexes exactly the text it was given")
+		// every other place that hands query text to the parser/lexer or keeps it: identity only
+		isQueryText := func(v ssa.Value) bool {
+			v = stripConv(v)
+			if pa, ok := v.(*ssa.Parameter); ok {
+				bt, isB := pa.Type().Underlying().(*types.Basic)
+				return isB && bt.Kind() == types.String
+			}
+			_, fl, _, ok := loadedField(v)
+			return ok && fl == "Query"
+		}
+		nq := 0
+		for _, f := range p.Funcs {
+			qi := 0
+			allInstrs(f, func(in ssa.Instruction) {
+				switch x := in.(type) {
+				case *ssa.Store:
+					if _, fl, _, ok := fieldOfAddr(x.Addr); ok && fl == "Query" {
+						nq++
+						qi++
+						r.add(isQueryText(x.Val), fmt.Sprintf("query|store|%s#%d", p.FName(f), qi), p.InstrPos(in), "the query text kept for positions and messages is the caller's text itself (a parameter or another Query field), not a trimmed or rebuilt copy")
+					}
+				case *ssa.Call:
+					g := x.Call.StaticCallee()
+					if g != nil && (g == nl || g == np || g == p.Func("NewOptimizer")) && len(x.Call.Args) > 0 {
+						nq++
+						qi++
+						r.add(isQueryText(x.Call.Args[0]), fmt.Sprintf("query|pass|%s->%s#%d", p.FName(f), g.Name(), qi), p.InstrPos(in), "the text handed on for lexing/parsing is the caller's text itself")
+					}
+				}
+			})
+		}
+		r.floor("places that keep or pass on the query text", nq, 5)
 		lenOK := false
 		allInstrs(nl, func(in ssa.Instruction) {
 			if st, ok := in.(*ssa.Store); ok {
@@ -813,4 +901,40 @@ func rulePosProv(p *Prog, r *Result) {
 	r.note("token_pos_stores", nTok)
 	r.floor("error construction sites", nErr, 100)
 	r.floor("stores to node Pos fields", nStore, 30)
+}
+
+// prevCharsInto: the constants c such that block b is entered over the true edge of `prev == c`
+// (a multi-value switch case); closed is false when some way into b is not such an edge.
+func prevCharsInto(b *ssa.BasicBlock, prev ssa.Value) (chars []int64, closed bool) {
+	closed = true
+	seen := map[*ssa.BasicBlock]bool{}
+	var rec func(x *ssa.BasicBlock, d int)
+	rec = func(x *ssa.BasicBlock, d int) {
+		if seen[x] || d > 8 {
+			return
+		}
+		seen[x] = true
+		if len(x.Preds) == 0 {
+			closed = false
+		}
+		for _, pr := range x.Preds {
+			f := ifOf(pr)
+			if f != nil && pr.Succs[0] == x {
+				if bo, ok := f.Cond.(*ssa.BinOp); ok && bo.Op == token.EQL && bo.X == prev {
+					if c, ok := constInt(bo.Y); ok {
+						chars = append(chars, c)
+						continue
+					}
+				}
+			}
+			if len(pr.Succs) == 1 {
+				rec(pr, d+1)
+				continue
+			}
+			closed = false
+		}
+	}
+	rec(b, 0)
+	sort.Slice(chars, func(i, j int) bool { return chars[i] < chars[j] })
+	return
 }
